@@ -270,3 +270,28 @@ contract('parso.python.diff._is_flow_node', params={'node': 'ref:BaseNode'}, ret
                   "implies(node.type == 'async_stmt', result == (is_leaf(node.children[1].children[0]) and "
                   "node.children[1].children[0].value in ('if', 'for', 'while', 'try', 'with')))"],
          modifies=[], lists=[], theories=['tree'], props=['C04'])
+
+# ---- DiffParser._get_old_line_stmt: the statement of the old tree that may be copied for a line: a child of file_input or
+# of a suite, in the old module, that does not start before that line and contains the leaf found for (line, 0) -- the leaf
+# after it when that one is a line break.
+from pv.contract import class_fields  # noqa: E402
+class_fields('DiffParser', _module='ref:Module')
+FG = 'fge(self._module, (old_line, 0))'
+contract('parso.python.diff.DiffParser._get_old_line_stmt', params={'self': 'ref:DiffParser', 'old_line': 'int'},
+         returns='ref:NodeOrLeaf',
+         requires=['self is not None', 'self._module is not None', 'not is_leaf(self._module)', 'self._module.parent is None',
+                   'self._module.type == "file_input"', 'old_line >= 1', '(old_line, 0) <= epos(self._module)',
+                   # assumed of the old tree (tokenizer / parser facts): every leaf has a non-DEDENT leaf at or before it, and a
+                   # leaf that ends a line is never the last one (the end marker follows)
+                   'forall(lambda l: implies(l is not None and is_leaf(l) and root(l) is self._module, %s), kinds=dict(l="ref:Leaf"))'
+                   % exists_nd('l'),
+                   'forall(lambda l: implies(l is not None and is_leaf(l) and root(l) is self._module and %s, '
+                   'lo(l) < hi(self._module)), kinds=dict(l="ref:Leaf"))' % NEAREST_NL.replace('(leaf)', '(l)')],
+         ensures=['implies(result is not None, root(result) is self._module and result.parent is not None and '
+                  'result.parent.type in ("file_input", "suite") and spos(result)[0] >= old_line)',
+                  'implies(result is not None, lo(result) <= lo(%s) + 1 and lo(%s) <= hi(result))' % (FG, FG)],
+         raises=['ValueError'],
+         loops={0: dict(invariant=['node is not None', 'root(node) is self._module', 'node is not self._module',
+                                   'lo(node) <= lo(leaf) and lo(leaf) <= hi(node)'],
+                        decreases='depth(node)')},
+         modifies=[], lists=[], theories=['tree', 'treepos', 'lookup', 'leafnum'], props=['C04'])
